@@ -95,7 +95,23 @@ int Symbols::append(const char *name, uint32_t address)
 //printf("Symbols::append(%s, %d);\n", name, address);
 #endif
 
-  if (locked) { return 0; }
+  if (locked)
+  {
+    // Pass 2: the label must be where pass 1 put it, otherwise every
+    // reference to it (and to the labels after it) is off.
+    entry = find(name);
+
+    if (entry != nullptr && entry->flag_rw == false &&
+        entry->scope == (in_scope ? current_scope : 0) &&
+        entry->address != address)
+    {
+      printf("Error: Label '%s' moved from 0x%x to 0x%x between passes.\n",
+        name, entry->address, address);
+      return -1;
+    }
+
+    return 0;
+  }
 
   entry = find(name);
 
